@@ -167,16 +167,16 @@ Theorem min_total x : exists v, F_min N x = Ok v.
 Proof.
   destruct x as [|x0 x]; [simpl; eauto|].
   change (F_min N (x0 :: x)) with (index (x0 :: x) (min_loop N (x0 :: x) 0 (n_nan N) 0)).
-  apply index_total. pose proof (min_loop_range (x0 :: x) 0 (n_nan N) 0).
-  assert (x0 :: x <> []) by discriminate. lia.
+  apply index_total. pose proof (min_loop_range (x0 :: x) 0 (n_nan N) 0 ltac:(lia) (or_intror ltac:(discriminate))) as H.
+  simpl Z.add in H. exact H.
 Qed.
 
 Theorem max_total x : exists v, F_max N x = Ok v.
 Proof.
   destruct x as [|x0 x]; [simpl; eauto|].
   change (F_max N (x0 :: x)) with (index (x0 :: x) (max_loop N (x0 :: x) 0 (n_nan N) 0)).
-  apply index_total. pose proof (max_loop_range (x0 :: x) 0 (n_nan N) 0).
-  assert (x0 :: x <> []) by discriminate. lia.
+  apply index_total. pose proof (max_loop_range (x0 :: x) 0 (n_nan N) 0 ltac:(lia) (or_intror ltac:(discriminate))) as H.
+  simpl Z.add in H. exact H.
 Qed.
 End TotalMinMax.
 
